@@ -463,6 +463,11 @@ func judge(o outcome) verdict {
 	if b.ErrNil && !b.RowsOK {
 		return verdict{"wrong-rows", true, "Run returned nil but the rows are not the program's rows: " + b.RowsDiff}
 	}
+	if b.RepeatTransient != "" {
+		// the same class as a failure of the first run: whether the first or a later run
+		// of a cell meets e.g. the machine-combiner limitation is a matter of timing
+		return verdict{"one-shot-temporary-failed-the-run", true, b.RepeatTransient}
+	}
 	if b.RepeatBad != "" {
 		return verdict{"wrong-outcome-in-later-run", true, b.RepeatBad}
 	}
